@@ -171,6 +171,10 @@ def model_matches(model, impl, profile):
     """is the implementation's answer one the model allows?"""
     if model.startswith("-"):
         return True
+    if model.startswith("V") and " " in model and " " in impl:
+        # SPACE: "V<reported> <heap>" against "V<reported> <heap> <inline> <T|F>"; '?' = not predicted
+        mf, imf = model[1:].split(), impl[1:].split()
+        return all(a == "?" or a == b for a, b in zip(mf, imf))
     if "," in model or "," in impl:
         ms, is_ = model.split(","), impl.split(",")
         if len(ms) != len(is_):
@@ -264,7 +268,7 @@ def evaluate(prop, cases, outs, profiles):
                     findings.append(Finding("violation", prop, c, k, narrow(cmd, j), prof, s, i, "element %d of %s" % (j, cmd[:60])))
                 else:
                     findings.append(Finding("violation", prop, c, k, cmd, prof, spec, impl))
-            if cmd == "Q codes" and prof != profiles[0]:
+            if cmd in ("Q codes", "SER") and prof != profiles[0]:
                 continue  # every process draws its own tie order; the model was given the first profile's table
             if not model_matches(model, impl, prof):
                 if "," in model or "," in impl:
@@ -412,8 +416,20 @@ def run_cases(prop, cases, profiles, binaries, model_bin, wdir, tag=""):
     return outs
 
 
+def _load_schema_ids():
+    try:
+        return json.load(open(os.path.join(COQ, "theories", "Gen", "schema_ids.json")))
+    except Exception:
+        return {}
+
+
+SCHEMA_IDS = {}
+
+
 def run_model_sharded(model_bin, cases, wdir, tag, shards=16, impl_flat=None):
     import concurrent.futures
+    global SCHEMA_IDS
+    SCHEMA_IDS = _load_schema_ids()
     # Huffman-shaped trees: the code table the implementation picked (it depends on a randomly
     # seeded hash map) is handed to the model on the `Q codes` line; the model re-derives it
     # with its own craft_wm_codes (compared on that line) and builds the tree from it
@@ -430,6 +446,15 @@ def run_model_sharded(model_bin, cases, wdir, tag, shards=16, impl_flat=None):
             if l == "Q codes" and impl_flat is not None:
                 a = impl_flat[start[i] + 1 + k]
                 out.append("Q codes " + a if a.startswith("V") else l)
+            elif l == "SER" and impl_flat is not None:
+                a = impl_flat[start[i] + 1 + k]
+                news = [x for x in c.lines[:k] if x.startswith("NEW")]
+                sid = None
+                if news and a.startswith("V") and ":" in a:
+                    t = news[-1].split()
+                    sid = SCHEMA_IDS.get("%s:%s" % (t[1], t[2]), SCHEMA_IDS.get("%s:*" % t[1]))
+                    # conversions between BitVector and BitVectorMut keep the layout
+                out.append("SER %d %s" % (sid, a.split(":", 1)[1]) if sid is not None and len(a) < 400000 else l)
             else:
                 out.append(l)
         return out
